@@ -257,6 +257,10 @@ def _build_op4(r, logical, names, forms, enc):
                       closing={"nwords": 1, "value": enc["closing"]})
         if layout == "dense" and d.get("negdense"):
             m.neg_rows = False
+        if enc["layout"] == "nonbigmat" and nr > 65535:
+            # no BIGMAT parameter but more than 65535 rows: the BIGMAT string layout with
+            # a POSITIVE row count in the header (readers must go by the size)
+            m.neg_rows = False
         if not enc["binary"]:
             m.fmt = enc["fmt"]
             m.i16 = enc["i16"]
